@@ -143,7 +143,7 @@ theorem handleTsig_safe (cfg : Cfg) (now : Nat) (hnow : now < 2^48) (r : Reader)
     refine safe_congr W (g := (do setRcode (RC "FORMERR"); pure none : M (Option Reader))) ?_ (stop _ s hI)
     unfold handleTsig; simp only [hmsg, hpr]
   | ok rr =>
-    obtain ⟨hr', hrt, ⟨n, hn, hown⟩, hrdata⟩ := hpo rr r'' rfl
+    obtain ⟨hr', hrt, ⟨n, hn, hown⟩, hrdata, _⟩ := hpo rr r'' rfl
     by_cases hraw : raw ≠ 0
     · refine safe_congr W (g := (do setRcode (RC "FORMERR"); pure none : M (Option Reader))) ?_ (stop _ s hI)
       unfold handleTsig; simp only [hmsg, hpr]; rw [if_pos hraw]
